@@ -72,7 +72,7 @@ func judgeC06(c *fw.Ctx, sc *SnapCase) {
 	}
 	c.Rec.Eval()
 	c.Rec.Count("gen:" + sc.Kind)
-	c.Rec.Count("set:" + sc.TMS.String())
+	countSet(c.Rec, sc)
 	if !o.Valid {
 		c.Rec.Count("invalid_input")
 	}
@@ -223,7 +223,7 @@ func c06Fuzz(p *fw.ParentCtx) {
 }
 
 func init() {
-	pr := &Profile{Sets: c06Sets, Kinds: append(append([]string{}, allKinds...), "junk", "motif", "motif", "degenerate"), Huge: true}
+	pr := &Profile{Sets: c06Sets, Kinds: append(append([]string{}, allKinds...), "junk", "motif", "motif", "degenerate"), Huge: true, Zoo: true, TileWidth: true}
 	fw.Register(&fw.Prop{
 		ID: "C06", Cases: tierN(300000, 6000000),
 		Run: func(c *fw.Ctx) {
